@@ -714,13 +714,19 @@ framer mt be moot
 frame m
 framer sl be slave
 frame s
-framer f be active
+framer f be active first a
 @FRAMER
+frame e0
+  put 1 into .e.zero
 frame a
+  print entering a
 @FRAME
 frame b in a
+  put 2 into .e.b
+  bid stop me
 frame c
   aux ax
+  inc .e.c with 1
 """
 SCAFFOLD_BARE = "house h\n@HOUSE\n"     # no logger / framer / frame context
 SCAFFOLD_EMPTY = "@HOUSE\n"             # not even a house
@@ -1033,6 +1039,7 @@ def render(cmds, styles=None):
                 if st.get("seg_comments"):
                     line += "  " + st["seg_comments"]
                 out.append(line)
+                out.extend(st.get("gaps", {}).get(p, []))     # blank / comment lines before this continuation line
                 line = indent + "  " + toks[p]
             else:
                 line += " " + toks[p]
@@ -1045,6 +1052,7 @@ def render(cmds, styles=None):
 INDENTS = ["", "  ", "       ", "\t"]
 COMMENTS = ["# note", "# it's a \"quoted\" 'remark' with to from if"]
 PRELINES = ["", "# comment line", "     # indented \"comment"]
+GAPLINES = ["", "   ", "# note between continuation lines", "      # indented note"]
 
 
 def conn_positions(toks):
@@ -1070,8 +1078,14 @@ def single_edits(cmds):
         for p in range(1, len(toks)):
             yield "%s: backslash+tab-indented continuation before token %d" % (head, p), \
                 {i: dict(breaks={p: "bs"}, cont_indent="\t")}
-        for p in conn_positions(toks):
+        conns = conn_positions(toks)
+        for p in conns:
             yield "%s: newline before connective %d `%s`" % (head, p, toks[p]), {i: dict(breaks={p: "conn"})}
+        if len(conns) >= 2:   # spread over several continuation lines, one filler line before one of them
+            for p in conns:
+                for fl in GAPLINES:
+                    yield "%s: continuation lines at every connective, filler %r before connective %d `%s`" % (
+                        head, fl, p, toks[p]), {i: dict(breaks={q: "conn" for q in conns}, gaps={p: [fl]})}
     if cmds:
         yield "blank line appended at end", {len(cmds) - 1: dict(post=True)}
 
@@ -1091,6 +1105,9 @@ def all_at_once(cmds):
         {i: dict(breaks={p: "bs" for p in range(1, len(c["tokens"]))}, cont_indent="\t") for i, c in enumerate(cmds)}
     yield "all: newline before every connective", \
         {i: dict(breaks={p: "conn" for p in conn_positions(c["tokens"])}) for i, c in enumerate(cmds)}
+    yield "all: continuation lines at every connective with filler lines between them", \
+        {i: dict(breaks={p: "conn" for p in conn_positions(c["tokens"])},
+                 gaps={p: list(GAPLINES) for p in conn_positions(c["tokens"])}) for i, c in enumerate(cmds)}
     comb = {}
     for i, c in enumerate(cmds):
         br = {}
@@ -1258,7 +1275,9 @@ def gen_need_spellings():
     # marker: path [of relation] is (updated|changed) [in frame [me|F]] [by marker]  (clauses in both orders)
     for path in (".p.q", "p.q", "p.q of me", "p.q of framer f", "p.q of frame a", "p.q of frame zz", ".n.o"):
         for part in ("updated", "changed"):
-            for fr in ("", "in frame", "in frame me", "in frame b", "in frame zz"):
+            # an earlier frame (e0), the frame itself, later frames (b, c) - all with enter actions - and a dangling one
+            for fr in ("", "in frame", "in frame me", "in frame a", "in frame e0", "in frame b", "in frame c",
+                       "in frame zz"):
                 for by in ("", "by mk", 'by "m k"'):
                     yield from emit("marker", [path, "is", part, fr, by])
                     if fr and by:
